@@ -274,6 +274,16 @@ def short_partition_streams(seed, count):
         if rng.random() < 0.25 and po < 8 and bs % (1 << (po + 1)) == 0:
             po += 1
         psize = bs >> po
+        # second family (every third stream): 2^po does NOT divide the block size, and the predictor order absorbs the
+        # remainder — block size = psize * 2^po + order with 0 < order < 2^po, so the residuals still split into 2^po
+        # equal partitions (RFC 9639 9.2.7.2: the block size must be evenly divisible by the number of partitions)
+        uneven = n % 3 == 2
+        if uneven:
+            lpc = rng.random() < 0.3
+            order = rng.choice([1, 2, 3, 4]) if not lpc else rng.choice([1, 2, 3, 5, 8, 12])
+            po = rng.randrange(order.bit_length(), order.bit_length() + 3)      # 2^po > order
+            psize = rng.randrange(max(order + 1, (16 >> po) + 1), max(order + 2, (16 >> po) + 2) + 12)
+            bs = psize * (1 << po) + order
         bps = rng.choice([8, 12, 16, 24])
         wasted = rng.choice([0, 0, 0, 1, 2])
         full = rng.random() < 0.5
@@ -308,7 +318,7 @@ def short_partition_streams(seed, count):
         while rest > 0:
             sizes.append(min(psize, rest)); rest -= psize
         sizes.reverse()
-        if full:
+        if full and not uneven:
             sizes = [0] * ((1 << po) - len(sizes)) + sizes
         for sz in sizes:
             k = rng.randrange(0, 3)
@@ -325,7 +335,8 @@ def short_partition_streams(seed, count):
         h.put(16, bs); h.put(16, bs); h.put(24, 0); h.put(24, 0)
         h.put(20, 44100); h.put(3, 0); h.put(5, bps - 1); h.put(36, bs); h.put(128, 0)
         out.append({"id": "dec_stream-hb-%d" % n, "bytes": (h.bytes() + fr).hex(), "kind": "dec_stream", "md5": "",
-                    "mutation": "partition-size-not-above-order:" + ("lpc" if lpc else "fixed") + (":all-partitions" if full else ":short")})
+                    "mutation": ("partition-count-does-not-divide-block-size:" + ("lpc" if lpc else "fixed")) if uneven else
+                    ("partition-size-not-above-order:" + ("lpc" if lpc else "fixed") + (":all-partitions" if full else ":short"))})
     return out
 
 
